@@ -184,7 +184,7 @@ func runC08(c *core.Ctx) {
 						}
 						md := l.metadataRoles("", roles)
 						sess := ss.s
-						idp := harness.NewIDP("idp1", harness.SPRegistry{md.EntityID: md}, &sess)
+						idp := harness.ReuseIDP("idp1", harness.SPRegistry{md.EntityID: md}, &sess) // one IdentityProvider value for the whole worker
 						rec := harness.NewCtr("c08" + key)
 						xmlenc.RandReader = rec
 						type obs struct{ cek, iv []byte }
